@@ -275,7 +275,7 @@ func c05Units(tier string, seed int64) []Unit {
 				}
 			}
 			for _, base := range []func(int) uint64{BaseZero, BaseOnes, BaseMid} {
-				e := &BitDFS{Base: base, Depth: 8, MaxDev: 2, PRNGFaithful: true, Alpha: LevelAlpha(AlphaAll(3, AlphaFull(128)), AlphaAll(2, AlphaEdge)), MaxExecs: 40000}
+				e := &BitDFS{Base: base, Depth: 8, MaxDev: 2, PRNGFaithful: true, Alpha: LevelAlpha(AlphaAll(2, AlphaFull(128)), AlphaAll(2, AlphaEdge), AlphaAll(1, AlphaCoin)), MaxExecs: 60000}
 				if !quick {
 					e.Depth, e.MaxDev, e.MaxExecs = 12, 3, 300000
 				}
@@ -336,6 +336,31 @@ func c05ShrinkProgs() []c05ShrinkProg {
 		return -1
 	}).Filter(func(v int) bool { return v != 32 && v != 3 })
 	distinct := rapid.SliceOfNDistinct(rapid.IntRange(0, 5), 0, 4, rapid.ID[int])
+	innerInt := rapid.Custom(func(t *rapid.T) int { return rapid.IntRange(0, 100).Draw(t, "i") })
+	outerInt := rapid.Custom(func(t *rapid.T) int {
+		v := innerInt.Draw(t, "v")
+		w := innerInt.Draw(t, "w")
+		x := innerInt.Draw(t, "x")
+		if v+w > 10 && x != 3 {
+			t.Fatalf("too big")
+		}
+		return v
+	})
+	var deepTree *rapid.Generator[int]
+	deepTree = rapid.Deferred(func() *rapid.Generator[int] {
+		return rapid.Custom(func(t *rapid.T) int {
+			v := rapid.IntRange(0, 9).Draw(t, "v")
+			if rapid.Bool().Draw(t, "more") {
+				l := deepTree.Draw(t, "l")
+				r := deepTree.Draw(t, "r")
+				if l+r+v >= 12 {
+					t.Fatalf("sum too big inside the generator")
+				}
+				return l + r + v
+			}
+			return v
+		})
+	})
 	return []c05ShrinkProg{
 		{"filtered variable-length Custom, failing through two paths", func(t *rapid.T) {
 			xb := rapid.Bool().Draw(t, "xb")
@@ -363,6 +388,15 @@ func c05ShrinkProgs() []c05ShrinkProg {
 			}
 			if sum >= 9 || (len(s) == 0 && tail >= 300) || (len(s) == 1 && tail == 7) {
 				t.Fatalf("boom")
+			}
+		}},
+		{"failure raised inside a Custom function that draws from generators printed like itself", func(t *rapid.T) {
+			// the outer group is still open when the failure is raised; the inner groups carry the same label
+			outerInt.Draw(t, "o")
+		}},
+		{"failure raised inside a recursive Deferred generator", func(t *rapid.T) {
+			if n := deepTree.Draw(t, "tree"); n > 200 {
+				t.Fatalf("unreachable")
 			}
 		}},
 		{"map with colliding keys, failing on size or on one entry", func(t *rapid.T) {
